@@ -202,13 +202,22 @@ class Rule_ST02(BaseRule):
                 return None
 
             # Find condition and then expressions.
-            condition_expression = when_clauses.children(sp.is_type("expression"))[0]
-            then_expression = when_clauses.children(sp.is_type("expression"))[1]
+            when_expressions = when_clauses.children(sp.is_type("expression"))
+            # Nothing to simplify without a complete WHEN ... THEN ... clause
+            # (e.g. `CASE ELSE 1 END` or an unparsable WHEN clause).
+            if len(when_expressions) < 2:
+                return None
+            condition_expression = when_expressions[0]
+            then_expression = when_expressions[1]
 
             # Method 1: Check if THEN/ELSE expressions are both Boolean and can
             # therefore be reduced.
             if else_clauses:
-                else_expression = else_clauses.children(sp.is_type("expression"))[0]
+                else_expressions = else_clauses.children(sp.is_type("expression"))
+                # An ELSE clause without an expression can't be simplified.
+                if not else_expressions:
+                    return None
+                else_expression = else_expressions[0]
                 upper_bools = ["TRUE", "FALSE"]
                 if (
                     (then_expression.raw_upper in upper_bools)
@@ -309,7 +318,10 @@ class Rule_ST02(BaseRule):
                 )
 
                 if else_clauses:
-                    else_expression = else_clauses.children(sp.is_type("expression"))[0]
+                    else_expressions = else_clauses.children(sp.is_type("expression"))
+                    if not else_expressions:  # pragma: no cover
+                        return None
+                    else_expression = else_expressions[0]
                     # Check if we can reduce the CASE expression to a single coalesce
                     # function.
                     if (
